@@ -186,7 +186,7 @@ func (d *driver) next() M {
 		case 1:
 			w["to"] = pick(r, users)
 		case 2:
-			e["mut"] = pick(r, []string{"flip", "drop", "dup", "ext", "len31"})
+			e["mut"] = pick(r, []string{"flip", "drop", "dup", "ext", "len31", "zeroext", "zeropre"})
 			if e["mut"] == "len31" {
 				e["bad"] = "prooflen"
 			}
